@@ -3,13 +3,8 @@
   accumulated link offsets (real arithmetic).
 -/
 import OpwVerif.Kin
-import OpwVerif.Real
+import OpwVerif.Lemmas.GeomReal
 namespace Opw
-
-theorem M3.ext' {a b : M3 ℝ} (h00 : a.m00 = b.m00) (h01 : a.m01 = b.m01) (h02 : a.m02 = b.m02)
-    (h10 : a.m10 = b.m10) (h11 : a.m11 = b.m11) (h12 : a.m12 = b.m12)
-    (h20 : a.m20 = b.m20) (h21 : a.m21 = b.m21) (h22 : a.m22 = b.m22) : a = b := by
-  cases a; cases b; simp_all
 
 /-- `r_0c * r_ce` is the product of the six elementary rotations (polynomial identity). -/
 theorem closed_rot_eq_product (s1 c1 s2 c2 s3 c3 s4 c4 s5 c5 s6 c6 : ℝ) :
@@ -20,9 +15,6 @@ theorem closed_rot_eq_product (s1 c1 s2 c2 s3 c3 s4 c4 s5 c5 s6 c6 : ℝ) :
 end Opw
 
 namespace Opw
-
-theorem V3.ext' {a b : V3 ℝ} (hx : a.x = b.x) (hy : a.y = b.y) (hz : a.z = b.z) : a = b := by
-  cases a; cases b; simp_all
 
 /-- `κ cos ψ₃ = c₃` for `κ = √(a₂² + c₃²)`, `ψ₃ = atan2 a₂ c₃` -/
 theorem kappa_cos (a c : ℝ) : Real.sqrt (a * a + c * c) * Real.cos (Complex.arg ⟨c, a⟩) = c := by
